@@ -1,6 +1,8 @@
 import ACModel.Driver.Wire
 import ACModel.Model.Discretizer
 import ACModel.Spec.Discretizer
+import ACModel.Model.Json
+import ACModel.Model.Update
 /- driver requests around the fitted-state model: `disc.labels`, `disc.transform` -/
 open Lean Wire
 
@@ -102,6 +104,33 @@ def judgeC04 (j : Json) : R Json := do
              ("features", Json.arr (res.map (fun r => obj [("f", Json.str r.1), ("table_ok", boolW r.2.1),
                 ("bad_rows", listW natW (r.2.2.1.take 5)), ("n_bad", natW r.2.2.1.length),
                 ("shape_ok", boolW r.2.2.2)])).toArray)])
+
+def stateW (s : Disc) : Json :=
+  obj [("orders", assocW glW s.orders), ("lpv", assocW tableW s.lpv),
+       ("feat_dropna", assocW boolW s.featDropna)]
+
+/-- `disc.update`: one `update_discretizer` call on the state -/
+def update (j : Json) : R Json := do
+  let s ← discJ (← fld j "state")
+  let f ← strF j "feature"
+  let mode ← match ← strF j "mode" with
+    | "group" => pure Disc.Mode.group
+    | "replace" => pure Disc.Mode.replace
+    | m => throw s!"bad mode {m}"
+  let d ← argJ (← fld j "discarded")
+  let k ← argJ (← fld j "kept")
+  pure (exceptW stateW (s.update f mode d k))
+
+/-- `disc.reload`: the JSON round trip of the state; `keystr` lists Python's `str(number)` -/
+def reload (j : Json) : R Json := do
+  let s ← discJ (← fld j "state")
+  let tbl ← listJ (fun p => do
+    let a ← p.getArr?
+    if h : a.size = 2 then pure (← parseRat (← a[0].getStr?), ← a[1].getStr?) else throw "bad pair") (← fld j "keystr")
+  let keyStr : Rat → String := fun q => match tbl.find? (fun p => p.1 == q) with
+    | some p => p.2
+    | none => ratW q
+  pure (exceptW stateW (s.reload keyStr))
 
 /-- `judge.C05`: fitted columns of an accepted frame hold fitted labels only (missing where
     `dropna=False` allows it) -/
